@@ -41,8 +41,11 @@ type Case struct {
 	Below    uint64      `json:"below,omitempty"`
 	// environment deviations: the object store fails the first FailWrites writes after consuming the body, and the first
 	// FailReads reads after delivering half of the object (the save and load paths retry)
-	FailWrites int `json:"fail_writes,omitempty"`
-	FailReads  int `json:"fail_reads,omitempty"`
+	// the squasher's order: the snapshot is handed to an asynchronous writer, the store is modified (same-size
+	// overwrites) and saved again for the next boundary, and only then does the first writer run
+	Deferred   bool `json:"deferred,omitempty"`
+	FailWrites int  `json:"fail_writes,omitempty"`
+	FailReads  int  `json:"fail_reads,omitempty"`
 }
 
 // flakyStore injects transient object-store failures.
@@ -155,7 +158,7 @@ func evalContent(cs Case) (*core.Fail, bool) {
 		pre = append(pre, refmodel.Op{T: "d", K: p, O: 0})
 	}
 	desc := func() string {
-		return fmt.Sprintf("partial=%v entries=%q prefixes=%q zstd=%v failed-writes=%d failed-reads=%d", cs.Partial, cs.Entries, cs.Prefixes, cs.Zstd, cs.FailWrites, cs.FailReads)
+		return fmt.Sprintf("partial=%v entries=%q prefixes=%q zstd=%v failed-writes=%d failed-reads=%d deferred-write=%v", cs.Partial, cs.Entries, cs.Prefixes, cs.Zstd, cs.FailWrites, cs.FailReads, cs.Deferred)
 	}
 	want := map[string][]byte{}
 	var wantSize uint64
@@ -189,7 +192,23 @@ func evalContent(cs Case) (*core.Fail, bool) {
 		file = store.NewCompleteFileInfo("st", 10, 30)
 	}
 	fi, w, err := st.Save(30)
-	if err == nil {
+	if err == nil && cs.Deferred && !cs.Partial {
+		var ops2 []refmodel.Op
+		for _, e := range cs.Entries {
+			ops2 = append(ops2, refmodel.Op{T: "w", K: string(e.K), V: strings.Repeat("Z", len(e.V)), O: 0})
+		}
+		if err2 := env.ApplyBlock(st, combo, ops2); err2 != nil {
+			return core.Failf("content:write-error", "%s: second block: %v", desc(), err2), false
+		}
+		_, w2, err2 := st.Save(40)
+		if err2 != nil {
+			return core.Failf("content:save-error", "%s: second save: %v", desc(), err2), false
+		}
+		err = w.Write(env.Ctx) // the first snapshot reaches storage after the second one was marshalled
+		if err == nil {
+			err = w2.Write(env.Ctx)
+		}
+	} else if err == nil {
 		err = w.Write(env.Ctx)
 	}
 	if err != nil {
@@ -379,6 +398,12 @@ func Run(ctx *core.Ctx) int {
 			counts["content"]++
 			if !emit(Case{Kind: "content", Entries: cp, Zstd: zstd}) {
 				return false
+			}
+			if len(cp) > 0 {
+				counts["content-deferred-write"]++
+				if !emit(Case{Kind: "content", Entries: cp, Zstd: zstd, Deferred: true}) {
+					return false
+				}
 			}
 			for _, pl := range prefixLists {
 				counts["content"]++
